@@ -2,6 +2,7 @@
    Statements only.  This file collects the C01 clauses that are theorems; see props.d/C01.json for the
    clauses that are search only (panics inside js.Parse beyond the recursion skeleton). *)
 From Coq Require Import List Arith.
+From Verif Require Common.Lx Css.Model Css.Proofs CssParse.Model CssParse.Proofs CssParse.Trace.
 From Verif Require Import Common.Base Depth.Model Depth.Proofs Depth.Instance Gen.CallGraph JsJson.Model JsJson.Proofs.
 
 (* Generic: in a call graph whose unguarded part is acyclic (rank certificate) every call stack that respects the
@@ -148,3 +149,50 @@ Module JsLex.
   Proof. exact jslex_no_overread_proof. Qed.
   Print Assumptions jslex_no_overread.
 End JsLex.
+
+Module Css.
+  Import Verif.Common.Lx Verif.Css.Model Verif.Css.Proofs.
+  (* css lexer: from every reachable state Next returns (no read outside data ++ [0]) and keeps the invariant *)
+  Theorem css_total : forall z, css_inv z ->
+    exists ty b z', css_next z = Some (ty, b, z') /\ css_inv z'.
+  Proof. exact css_total_proof. Qed.
+  Print Assumptions css_total.
+  (* driving Next from the start reaches the end-of-input report after at most len d tokens *)
+  Theorem css_lex_done : forall d, exists toks, css_lex d = LexDone toks /\ len toks <= len d.
+  Proof. exact css_lex_done_proof. Qed.
+  Print Assumptions css_lex_done.
+  (* the end report is given exactly at the end of the input and repeated on every further call *)
+  Theorem css_eof_sticky : forall z, css_inv z ->
+    (lpos z = lx_len z -> css_next z = Some (TError, [], z)) /\
+    (forall b z', css_next z = Some (TError, b, z') ->
+       lpos z = lx_len z /\ b = [] /\ z' = z /\ css_next z' = Some (TError, [], z')).
+  Proof. exact css_eof_sticky_proof. Qed.
+  Print Assumptions css_eof_sticky.
+  (* no byte handed to the caller lies outside the input *)
+  Theorem css_no_overread : forall z ty b z', css_inv z -> css_next z = Some (ty, b, z') ->
+    lpos z <= lpos z' <= lx_len z /\ b = slice (lx_data z) (lpos z) (lpos z') /\ lx_data z' = lx_data z.
+  Proof. exact css_no_overread_proof. Qed.
+  Print Assumptions css_no_overread.
+End Css.
+
+Module CssParse.
+  Import Verif.Common.Lx Verif.Css.Model Verif.CssParse.Model Verif.CssParse.Proofs Verif.CssParse.Trace.
+  (* css parser, stylesheet and inline mode: Next returns from every reachable state (no index outside the input, the
+     state stack, the token or the buffer; the state stack is never empty) *)
+  Theorem cssparse_total : forall p, pinv p ->
+    exists g p', parse_next p = POk (g, p') /\ pinv p' /\ pst p' <> [] /\ lbuf (pl p') = lbuf (pl p).
+  Proof. exact cssparse_total_proof. Qed.
+  Print Assumptions cssparse_total.
+  (* a caller that keeps calling Next, also after parse errors, gets the end-of-input report within 2*len+1 calls *)
+  Theorem cssparse_progress : forall d inline,
+    exists k tr g p', (k <= 2 * length d)%nat /\ parse_run (S k) (new_parser d inline) = POk (tr ++ [(g, p')]) /\
+      length tr = k /\ eof_report g p'.
+  Proof. exact cssparse_progress_proof. Qed.
+  Print Assumptions cssparse_progress.
+  (* once the end has been reported every further call reports it again without moving *)
+  Theorem cssparse_eof_sticky : forall p, pinv p -> phi p = 1 ->
+    exists p', parse_next p = POk (GError, p') /\ eof_report GError p' /\ pinv p' /\ phi p' = 1 /\
+      lpos (pl p') = lpos (pl p) /\ pst p' = pst p.
+  Proof. exact cssparse_eof_sticky_proof. Qed.
+  Print Assumptions cssparse_eof_sticky.
+End CssParse.
